@@ -6,8 +6,9 @@
     says that of an annotated trace: every enqueue takes effect at one point inside its call (the item
     enters the abstract sequence, at any position), every successful dequeue takes effect at one point
     inside its call and removes the FIRST item of the abstract sequence, and the result it reports is that
-    item.  Consequences proved here for the erased history: no item is invented ([pool_no_invention]) and,
-    for pairwise distinct enqueued values, no item is dequeued twice ([pool_at_most_once]).  An "empty"
+    item.  Consequence proved here for the erased history: no item is invented ([pool_no_invention]); that no
+    item is dequeued twice is the content of [pool_valid] itself (a dequeue removes the item it reports from
+    the abstract sequence, into which every enqueue put its item once).  An "empty"
     answer is not constrained by [pool_valid] (BasketQueue's FIFO order and its empty answers are decided
     on implementation histories by the verified lincheck only). *)
 From Coq Require Import ZArith List String Bool Lia PeanoNat.
